@@ -86,7 +86,7 @@ type adapterPath struct {
 }
 
 func exploreAdapter(p *load.Program, r *Roles, res *UnitResult, fn *ssa.Function, mode Mode, free []*eng.Term, paramInit map[int]*eng.Term, initFacts func(e *eng.Engine, f *eng.Facts), ruleForProblems string) []adapterPath {
-	e := eng.New(eng.Config{Prog: p.Prog, Pkg: p.SSA, Fset: p.Fset, Root: fn, RootFree: free, MaxDepth: 4, MaxStates: 20000,
+	e := eng.New(eng.Config{Prog: p.Prog, Pkg: p.SSA, Fset: p.Fset, Root: fn, RootFree: free, MaxDepth: 8, MaxStates: 20000,
 		Classify: r.Classifier(mode), Monitors: []eng.Monitor{userCallMon{}}, KeepFacts: true, ParamInit: paramInit, InitFacts: initFacts})
 	e.Run()
 	res.Stats.add(e, fn)
@@ -762,7 +762,7 @@ func analyzeMethodSets(p *load.Program, r *Roles, res *UnitResult) {
 func installedClosures(p *load.Program, r *Roles, res *UnitResult, fn *ssa.Function) map[string]*ssa.Function {
 	out := map[string]*ssa.Function{}
 	explore := func(root *ssa.Function, free []*eng.Term) *eng.Engine {
-		e := eng.New(eng.Config{Prog: p.Prog, Pkg: p.SSA, Fset: p.Fset, Root: root, RootFree: free, MaxDepth: 4, MaxStates: 20000,
+		e := eng.New(eng.Config{Prog: p.Prog, Pkg: p.SSA, Fset: p.Fset, Root: root, RootFree: free, MaxDepth: 8, MaxStates: 20000,
 			Classify: r.Classifier(Mode{}), Monitors: []eng.Monitor{storeRecMon{}}, KeepFacts: true})
 		e.Run()
 		res.Stats.add(e, root)
